@@ -35,6 +35,7 @@ EXPLANATION = (
   ' (EXC-fallback) in every attribute extractor that reads one raw value, each path on which an error is logged returns what the extractor returns for an absent attribute: a malformed value is ignored, it never turns into another value;'
   " (PAIR-default-end) where the merging filters are not applied unconditionally the writer's finish() gives the default end to every cue that has none, not to the last list entry only;"
   ' (NUL-htmlattr) in subclasses of HTMLParser the value of an attribute, which is None for an attribute written without a value, is tested against None before it is passed on or dereferenced;'
+  ' (LINT-k) no instance field declared with a numeric type is tested by truthiness (the number 0 would count as `not set`);'
 )
 RULE_TEXT = "per function / class / dereference / extraction site / raise statement"
 UNDECIDED = ["termination", "RecursionError (input-depth recursion exists in from_xml, dfs_iterator, _process_element)", "TypeError / AssertionError guarded by data-dependent invariants",
@@ -299,4 +300,5 @@ def run(ctx):
     shape.check_default_end(ctx, ctx.ix.cls(q_))
   nha = nul.check_html_attr_values(ctx, list(ctx.ix.classes.values()))
   ctx.floor("NUL-htmlattr", "uses of HTML attribute values", nha, 1)
+  common.check_numeric_fields(ctx, list(ctx.ix.modules))
   common.check_history_independence(ctx, MODS)
